@@ -232,9 +232,44 @@ class Engine:
             if not cache[file]:
                 continue
             txt = ' '.join(cache[file][line - 1:line + 3])
-            mm = re.match(r"^\s*(?:unsafe )?impl(?:<[^>]*>)?\s+(?:(?:[\w:]+::)?(\w+)(?:<[^{]*?>)?\s+for\s+)?(?:[\w:]+::)?&?(?:'\w+ )?(\w+|\[\w+\])", txt)
+            mm = re.match(r"^\s*(?:unsafe )?impl(?:<[^>]*>)?\s+(?:(?:[\w:]+::)?(\w+)(<[^{]*?>)?\s+for\s+)?(?:[\w:]+::)?&?(?:'\w+ )?(\w+|\[\w+\])", txt)
             if mm:
-                s.impls[(mm.group(1), mm.group(2), meth)] = f
+                s.impls[(mm.group(1), mm.group(3), meth)] = f
+                if mm.group(2):          # generic trait: also keyed with its arguments, e.g. ('From<TagTypeId>', 'TagType', 'from')
+                    targs = re.sub(r"'\w+,? ?", '', mm.group(2)).replace(' ', '')
+                    s.impls[(mm.group(1) + targs, mm.group(3), meth)] = f
+
+    def enum_variants(s, ty):
+        """variant name -> discriminant of an enum declared in the repo (read from the current source)"""
+        if not hasattr(s, '_enumcache'):
+            s._enumcache = {}
+        if ty in s._enumcache:
+            return s._enumcache[ty]
+        out = {}
+        for crate in ('multiboot2-common', 'multiboot2', 'multiboot2-header'):
+            d = os.path.join(s.srcroot, crate, 'src')
+            for fn in sorted(os.listdir(d)) if os.path.isdir(d) else []:
+                if not fn.endswith('.rs'):
+                    continue
+                src = open(os.path.join(d, fn)).read()
+                m = re.search(r'\benum ' + re.escape(ty) + r'\s*\{(.*?)\n\}', src, re.S)
+                if not m:
+                    continue
+                nxt = 0
+                for ln in m.group(1).split('\n'):
+                    ln = ln.strip()
+                    if not ln or ln.startswith('//') or ln.startswith('#'):
+                        continue
+                    mm = re.match(r'^(\w+)\s*(?:\(.*\)|\{.*\})?\s*(?:=\s*(0x[0-9a-fA-F_]+|\d[\d_]*))?\s*,?\s*(?://.*|/\*.*\*/\s*,?)?$', ln)
+                    if mm:
+                        if mm.group(2):
+                            nxt = int(mm.group(2).replace('_', ''), 0)
+                        out[mm.group(1)] = nxt
+                        nxt += 1
+                s._enumcache[ty] = out
+                return out
+        s._enumcache[ty] = out
+        return out
 
     def layout(s, t):
         m = re.match(r'^DynSizedStructure<(.*)>$', t)
@@ -538,6 +573,9 @@ class Engine:
             if isinstance(v.disc, str):
                 if v.disc in STD_VARIANTS:
                     return BV(STD_VARIANTS[v.disc], 64)
+                idx = s.enum_variants(v.ty).get(v.disc)
+                if idx is not None:
+                    return BV(idx, 64)
                 raise Unsupported('discriminant of ' + v.ty + '::' + v.disc)
             return z3.ZeroExt(64 - v.disc.size(), v.disc) if v.disc.size() < 64 else v.disc
         if isinstance(v, z3.ExprRef):
@@ -903,6 +941,54 @@ class Engine:
             if idx < len(elems):
                 alts.append((z3.UGT(ln, BV(idx, 64)), some))
             return forks(alts)
+        # ---- a few more list shapes (collect / sort / by-value iteration), so that re-arranged
+        #      loops over the Vec slots stay inside the encodable fragment
+        if re.match(r'^<Vec<.*> as Deref(Mut)?>::deref(_mut)?$', c) and isinstance(args[0], LRef):
+            return R(args[0])            # the slice view of a modelled Vec is the Vec itself
+        m = re.match(r'^core::slice::<impl \[.*\]>::iter$', c) or re.match(r'^Vec::<.*>::iter$', c)
+        if m and isinstance(args[0], LRef):
+            return R(Agg('SliceIter', (args[0], 0)))
+        m = re.match(r'^<core::slice::Iter<.*> as Iterator>::collect::<Vec<.*>>$', c)
+        if m:
+            it = args[0]
+            vref, idx = it.fields
+            sv = s.deref_local(st, vref)
+            elems, ln = sv.fields
+            refs = tuple(LRef(vref.oid, vref.path + (0, j)) for j in range(idx, len(elems)))
+            return R(Agg('SymVec', (refs, ln - idx)))
+        m = re.match(r'^(?:core|alloc)::slice::<impl \[.*\]>::(sort_by_key|sort_by|sort_unstable_by_key|sort_by_cached_key|sort|sort_unstable|reverse)(::<.*>)?$', c) \
+            or re.match(r'^Vec::<.*>::(sort_by_key|sort_by|sort|reverse)(::<.*>)?$', c)
+        if m and isinstance(args[0], LRef):
+            sv = s.deref_local(st, args[0])
+            if isinstance(sv, Agg) and sv.ty == 'SymVec' and len(sv.fields[0]) == 2:
+                elems, ln = sv.fields
+                # result = some permutation of the elements: both orders of a two-element list are possible
+                outs = [('ret', UNIT, st)]
+                st2 = st.fork(z3.And(st.pc, ln == 2))
+                if s.feasible(st2.pc):
+                    s.store_local(st2, args[0], Agg('SymVec', ((elems[1], elems[0]), ln)))
+                    outs.append(('ret', UNIT, st2))
+                return outs
+            raise Unsupported('sort of a non-modelled sequence')
+        m = re.match(r'^<Vec<.*> as IntoIterator>::into_iter$', c)
+        if m and isinstance(args[0], Agg) and args[0].ty == 'SymVec':
+            oid = next(s.oid)
+            st2 = st.fork(st.pc)
+            st2.heap[oid] = args[0]
+            return [('ret', Agg('VecIntoIter', (LRef(oid, ()), 0)), st2)]
+        m = re.match(r'^<alloc::vec::IntoIter<.*> as Iterator>::next$', c) or re.match(r'^<std::vec::IntoIter<.*> as Iterator>::next$', c)
+        if m:
+            it = s.deref_local(st, args[0])
+            vref, idx = it.fields
+            sv = s.deref_local(st, vref)
+            elems, ln = sv.fields
+            def some2(st2):
+                s.store_local(st2, args[0], Agg('VecIntoIter', (vref, idx + 1)))
+                return ('ret', mk_enum('Option', 'Some', [elems[idx]]), st2)
+            alts = [(z3.ULE(ln, BV(idx, 64)), lambda st2: ('ret', mk_enum('Option', 'None'), st2))]
+            if idx < len(elems):
+                alts.append((z3.UGT(ln, BV(idx, 64)), some2))
+            return forks(alts)
         if re.match(r'^<\[u8\] as AsRef<\[u8\]>>::as_ref$', c):
             return R(args[0])
         m = re.match(r'^<(.*) as MaybeDynSized>::as_bytes$', c)
@@ -919,6 +1005,15 @@ class Engine:
             return [('panic', msg + ' @' + short(caller.name if caller else ''), st)]
         if c.startswith('Arguments::') or c.startswith('core::fmt::') or c.startswith('Argument::'):
             return R(Opaque('fmt'))
+        m = re.match(r'^<(.+) as Into<(.+)>>::into$', c)
+        if m:
+            src_t, dst_t = s.subst(m.group(1), sub), s.subst(m.group(2), sub)
+            if src_t == dst_t:
+                return R(args[0])
+            f2, sub2 = s.resolve('<%s as From<%s>>::from' % (dst_t, src_t), sub)
+            if f2 is None:
+                raise Unsupported('Into without From impl: ' + c)
+            return s.run(f2, args, sub2, st, depth + 1)
         for pat in s.opaque_calls:
             if re.match(pat, c):
                 return R(Agg('OpaqueValue', (c,)))
@@ -999,7 +1094,12 @@ class Engine:
             ty = s.subst(m.group(1), sub)
             tyn = re.sub(r'<.*$', '', ty)
             tr = m.group(2).split('::')[-1]
-            f = s.impls.get((tr, tyn, m.group(3)))
+            targs = re.match(r'^<.+? as [\w:]+?(<.*>)>::\w+', c)
+            f = None
+            if targs:
+                f = s.impls.get((tr + s.subst(targs.group(1), sub).replace(' ', ''), tyn, m.group(3)))
+            if f is None:
+                f = s.impls.get((tr, tyn, m.group(3)))
             if f is None and (tr + '::' + m.group(3)) in s.fns:
                 f = s.fns[tr + '::' + m.group(3)]   # provided method
             sub2 = dict(sub)
